@@ -70,9 +70,11 @@ def run(ctx: Ctx, extended: bool = False) -> None:
     import jax.numpy as jnp
 
     rng = np.random.default_rng(ctx.seed)
-    ents = catalog.entries("thorough" if extended else ctx.tier) if (extended or not ctx.quick) else catalog.one_per_class(ctx.tier, ctx.seed)
+    ents = catalog.entries("thorough" if (extended or not ctx.quick) else "quick")
+    full_set = {x.cid for x in (ents if (extended or not ctx.quick) else catalog.one_per_class(ctx.tier, ctx.seed))}
     programs = 0
     for e in ents:
+        full = e.cid in full_set   # quick tier: the whole battery for one configuration per class, the eager/aliasing part for every configuration
         env = e.build()
         jreset, jstep = jax.jit(env.reset), jax.jit(env.step)
         seed = int(rng.integers(1 << 30))
@@ -128,8 +130,33 @@ def run(ctx: Ctx, extended: bool = False) -> None:
                 changed = [k for k in before if before[k] != after.get(k)] + [k for k in after if k not in before]
                 ctx.fail(e.cid, "argument_mutated", f"env.step modified its state argument in place (fields {changed})", {**info, "fields": changed},
                          {"cls": e.cls, "fields": ",".join(sorted(changed))})
+            # results must not change after the fact: a value returned earlier stays what it was when later calls are made on the same object
+            # (eager execution can hand out the same mutable container twice, e.g. a generator that returns a stored instance)
+            if e.cls not in ("Maze", "Cleaner"):
+                k1, k2 = jax.random.PRNGKey(int(rng.integers(1 << 30))), jax.random.PRNGKey(int(rng.integers(1 << 30)))
+                r1 = _eager(lambda: env.reset(k1))
+                if r1 is not None:
+                    snap_r1 = snapshot(r1)
+                    r2 = _eager(lambda: env.reset(k2))
+                    n1 = _eager(lambda: env.step(r1[0], a))
+                    snap_n1 = snapshot(n1) if n1 is not None else None
+                    _eager(lambda: env.step(r1[0], jnp.asarray(sample_action(env, rng))))
+                    _eager(lambda: env.reset(k1))
+                    programs += 1
+                    ctx.evaluations += 1
+                    if snapshot(r1) != snap_r1:
+                        ctx.fail(e.cid, "result_changed_later", "the (state, timestep) returned by reset(k1) changed when reset/step were called again on the same object",
+                                 {**info, "k1": np.asarray(k1).tolist(), "k2": np.asarray(k2).tolist()}, {"cls": e.cls})
+                    if n1 is not None and snapshot(n1) != snap_n1:
+                        ctx.fail(e.cid, "result_changed_later", "the result of step changed when reset/step were called again on the same object", info, {"cls": e.cls})
+                    if r2 is not None and not tree_close(r2, jax.jit(env.reset)(k2), tol=2e-5):
+                        ctx.fail(e.cid, "variant:eager", "eager reset after another eager reset disagrees with the jit result (call-history dependence)",
+                                 {**info, "k2": np.asarray(k2).tolist()}, {"cls": e.cls})
         if snapshot(s) != snap_s or snapshot(a) != snap_a or snapshot(key) != snap_k:
             ctx.fail(e.cid, "argument_bytes_changed", "the arrays passed to reset/step changed", info, {"cls": e.cls})
+        if not full:
+            ctx.sample({"env": e.cid, "variants": ["eager", "jit-repeat", "result-aliasing"]})
+            continue
         # --- vmap over several batch sizes, the case at a random index among different elements
         for B in ([1, 2, 5] if ctx.quick else [1, 2, 5, 8, 32]):
             i = int(rng.integers(B))
